@@ -112,6 +112,7 @@ void h_fast_sign(void)
 	int ret = sm2_fast_sign(fp, &pc, dgst, &sig);
 	CHECK(ret == 1 || ret == 0, "sm2_fast_sign returns 1, or 0 to ask for another nonce");
 	if (ret == 1) {
+		V_COVER("accept path 1");
 		check_sig_equations(&sig, d, k, e % Q);
 		check_all_verifiers(&key, dgst, &sig);
 	} else {
